@@ -230,6 +230,87 @@ def semantic_cases(rng, rounds, tmp):
     from passlib.context import CryptContext
     from passlib.hash import ldap_md5
 
+    # ---- realms: an explicit realm — the empty one included — is that realm; None means the default realm (TypeError without one)
+    for default in ("r1", "", None):
+        for _ in range(max(rounds // 30, 6)):
+            f = apache.HtdigestFile(default_realm=default)
+            ref = {}
+            hist = []
+            for _k in range(rng.randrange(3, 14)):
+                u, r = rng.choice(["u1", "u2"]), rng.choice([None, "", "r1", "r2"])
+                k = rng.choice(["set_hash", "set_hash", "delete", "get", "users", "delete_realm", "set_pw", "check"])
+                eff = default if r is None else r
+                hist.append([k, u, r])
+                inp = {"op": "realm-history", "default_realm": default, "ops": list(hist)}
+                try:
+                    if k == "set_hash":
+                        h = hashlib.md5(b"%d" % rng.randrange(100)).hexdigest()
+                        hist[-1].append(h)
+                        got = f.set_hash(u, r, h)
+                        want = (u, eff) in ref
+                        ref[(u, eff)] = h
+                    elif k == "set_pw":
+                        got = f.set_password(u, r, "pw")
+                        want = (u, eff) in ref
+                        ref[(u, eff)] = hashlib.md5(f"{u}:{eff}:pw".encode()).hexdigest()
+                    elif k == "delete":
+                        got = f.delete(u, r)
+                        want = ref.pop((u, eff), None) is not None
+                    elif k == "get":
+                        got, want = f.get_hash(u, r), ref.get((u, eff))
+                    elif k == "users":
+                        got, want = sorted(f.users(r)), sorted(x for x, rr in ref if rr == eff)
+                    elif k == "check":
+                        got = f.check_password(u, r, "pw")
+                        want = None if (u, eff) not in ref else ref[(u, eff)] == hashlib.md5(f"{u}:{eff}:pw".encode()).hexdigest()
+                    else:
+                        if r is None:
+                            continue
+                        got = f.delete_realm(r)
+                        want = len([1 for x, rr in ref if rr == r])
+                        for key in [key for key in ref if key[1] == r]:
+                            ref.pop(key)
+                    if r is None and default is None:
+                        yield ("realm-semantics", inp, False, "accepted without a realm", "TypeError")
+                        break
+                    if got != want:
+                        yield ("realm-semantics", inp, False, got, want)
+                        break
+                except TypeError:
+                    if not (r is None and default is None):
+                        yield ("realm-semantics", inp, False, "TypeError", "an answer")
+                        break
+                    hist.pop()
+                    continue
+            else:
+                text = f.to_string()
+                reread = independent_reader(text, 3)
+                want_db = {(u.encode(), r.encode()): h.encode() for (u, r), h in ref.items()}
+                yield ("realm-semantics", {"op": "realm-history", "default_realm": default, "ops": hist}, reread == want_db, {"export": text.decode("latin-1")}, repr(want_db))
+    # ---- the same bytes mean the same database whether they come from a string or from a file
+    for data in (b"# disabled 2019\rmallory:h9\nu1:h1\n", b"u1:h1\r\nu2:h2\r\n", b"u1:h1\rx\nu2:h2", b"\ru1:h1\n", b"u1:h1\n\r\nu2:h2\n", b"a\x0cb:h\nu\x1c1:h\x1d\nv:h\x85\n", b"u1:r\r1:d1\nu2:r1:d2\n"):
+        for cls, fields in ((apache.HtpasswdFile, 2), (apache.HtdigestFile, 3)):
+            inp = {"op": "string-vs-path", "class": cls.__name__, "content": data.decode("latin-1")}
+            path = os.path.join(tmp, "same_bytes")
+            with open(path, "wb") as fh:
+                fh.write(data)
+
+            def view(mk):
+                try:
+                    f = mk()
+                    recs = sorted((repr(k), repr(v)) for k, v in f._records.items())
+                    return (recs, f.to_string())
+                except ValueError as e:
+                    return ("ValueError", str(e)[:40])
+
+            a, b2 = view(lambda: cls.from_string(data)), view(lambda: cls(path))
+            yield ("load-string-equals-load-path", inp, a == b2, a, b2)
+            if a[0] != "ValueError":
+                got = independent_reader(a[1], fields)
+                live = {tuple(x.encode("latin-1") if isinstance(x, str) else x for x in (eval(k) if k.startswith("(") else (eval(k),))): (eval(v).encode("latin-1") if isinstance(eval(v), str) else eval(v)) for k, v in a[0]}
+                plain = all(b":" not in v and v == v.rstrip() for v in live.values())
+                if plain:
+                    yield ("loaded-string-export-rereads", inp, got == live, repr(got), repr(live))
     pws = ["pw", "pässword", "ÿ", "café", "\xe9", "a b", "密码", ""]
     users = ["u1", "Ünï", "é"]
     for _ in range(rounds):
